@@ -33,10 +33,12 @@ def extract(g, X):
     def user_kd():
         b = X.fn_body(fp, "key_derivation_user_password_rc4")
         rounds = re.search(r"if\s+\w+\s*>=\s*(\d+)\s*\{\s*for\s+\w+\s+in\s+0\s*\.\.\s*(\d+)", b)
-        meta = re.search(r"if\s+\w+\s*>=\s*(\d+)\s*&&\s*!\w+\.encrypt_metadata\s*\{\s*\w+\.consume\(\[([^\]]*)\]\)", b)
-        padlen = re.search(r"if\s+\w+\.len\(\)\s*<\s*(\d+)", b)
-        cap = re.search(r"std::cmp::min\(\w+,\s*(\d+)\)", b)
-        return rounds.group(1), rounds.group(2), meta.group(1), X.cl(X.lits(meta.group(2))), padlen.group(1), cap.group(1)
+        meta = re.search(r"if\s+\w+\s*>=\s*(\d+)\s*&&\s*!\w+\.encrypt_metadata\s*\{\s*\w+\.consume\(\s*(&?\[[^\]]*\]|b\"[^\"]*\")\s*\)", b)
+        # the padding step may live in a private helper of from_password (one level)
+        padlen = X.search_deep(r"if\s+\w+\.len\(\)\s*<\s*(\d+)", b, fp)
+        caps = X.min_consts(b, r"\w+")
+        return (rounds.group(1), rounds.group(2), meta.group(1), X.cl(X.byte_string(meta.group(2))), padlen.group(1),
+                str(caps[0][1]))
     g.attempt([("crypt_md5_rev", "N"), ("crypt_md5_rounds", "N"), ("crypt_meta_rev", "N"), ("crypt_meta_bytes", "list N"),
                ("crypt_pw_len", "N"), ("crypt_key_cap", "N")], "crypt.rs:key_derivation_user_password_rc4", user_kd)
 
@@ -107,16 +109,26 @@ def extract(g, X):
 
     def dec():
         b = X.fn_body(src, "decrypt_with")
-        salt = re.search(r'copy_from_slice\(b"([^"]*)"\)', b)
-        idb = re.search(r"id\.id\.to_le_bytes\(\)\[\.\.(\d+)\]", b)
-        gb = re.search(r"id\.gen\.to_le_bytes\(\)\[\.\.(\d+)\]", b)
-        mins = re.findall(r"\(\w+\s*\+\s*(\d+)\)\.min\((\d+)\)", b)
+
+        def le_prefix(field):
+            """N of every `id.<field>.to_le_bytes()[..N]` (directly or through `let t = id.<field>.to_le_bytes();`)"""
+            call = r"\w+\." + field + r"\.to_le_bytes\(\)"
+            ns = re.findall(call + r"\s*\[\s*\.\.\s*(\d+)\s*\]", b)
+            for t in re.findall(r"let\s+(\w+)\s*=\s*" + call + r"\s*;", b):
+                ns += re.findall(r"\b" + t + r"\s*\[\s*\.\.\s*(\d+)\s*\]", b)
+            if len(set(ns)) != 1:
+                raise ValueError("%s bytes: %r" % (field, ns))
+            return ns[0]
+        salt = re.search(r'copy_from_slice\(\s*(b"(?:\\.|[^"\\])*"|&\[[^\]]*\])\s*\)', b)
+        mins = []
+        for operand, cap in X.min_consts(b, r"\(\s*\w+\s*\+\s*\d+\s*\)"):
+            mins.append((re.fullmatch(r"\w+\s*\+\s*(\d+)", operand).group(1), str(cap)))
         lens = re.findall(r"if\s+\w+\.len\(\)\s*<\s*(\d+)", b)
         splits = re.findall(r"\w+\.split_at_mut\((\d+)\)", b)
         kb = X.fn_body(src, "key")
-        kc = re.search(r"std::cmp::min\(self\.key_size,\s*(\d+)\)", kb)
+        (kc,) = [cap for operand, cap in X.min_consts(kb, r"self\.key_size")]
         if len(set(mins)) != 1 or len(set(lens)) != 1 or len(set(splits)) != 1:
             raise ValueError("decrypt constants differ between arms")
-        return (X.cl(list(salt.group(1).encode())), idb.group(1), gb.group(1), mins[0][0], mins[0][1], lens[0], splits[0], kc.group(1))
+        return (X.cl(X.byte_string(salt.group(1))), le_prefix("id"), le_prefix("gen"), mins[0][0], mins[0][1], lens[0], splits[0], str(kc))
     g.attempt([("crypt_salt", "list N"), ("crypt_id_bytes", "N"), ("crypt_gen_bytes", "N"), ("crypt_objkey_extra", "N"), ("crypt_objkey_cap", "N"),
                ("crypt_aes_min", "N"), ("crypt_iv_len", "N"), ("crypt_dkey_cap", "N")], "crypt.rs:decrypt", dec)
